@@ -26,8 +26,10 @@ Expand(sym) == CASE sym = "EQ" -> <<"\\", "\"">>                     \* escaped 
                  [] sym = "GE" -> <<"g", "e", "o", ":">>
                  [] sym = "UE" -> <<"\\", "u", "0", "0", "E", "9">>   \* é
                  [] sym = "NA" -> <<"é">>                            \* non-ASCII
-                 [] OTHER -> <<sym>>                                  \* @ # < > 7 _ % a
-Alphabet == {"EQ", "EB", "HH", "SD", "XS", "GE", "UE", "NA", "@", "#", "<", ">", "7", "_", "%", "a"}
+                 [] OTHER -> <<sym>>                                  \* @ # < > 7 _ % a, and LS
+\* "LS" stands for one character that Unicode - not N-Triples - counts as a line boundary (U+2028; also U+0085, U+000C ...):
+\* inside a literal it is an ordinary character
+Alphabet == {"EQ", "EB", "HH", "SD", "XS", "GE", "UE", "NA", "@", "#", "<", ">", "7", "_", "%", "a", "LS"}
 Flat(seq) == FoldLeft(LAMBDA acc, s : acc \o Expand(s), <<>>, seq)
 
 Chars(str) == [i \in 1..Len(str) |-> SubSeq(str, i, i)]              \* TLC string -> sequence of characters
